@@ -3,6 +3,7 @@ from enum import Enum
 from graphlib import TopologicalSorter
 from typing import get_args, get_origin
 
+from . import _verif
 from .utils import UnionTypes
 
 
@@ -161,6 +162,7 @@ def sort_types(cls, avail):
     # We filter everything except subclasses and dependent types that *might* cover
     # the object represented by cls.
     avail = [t for t in avail if subclasscheck(cls, t)]
+    avail = _verif.order("sort_types.avail", avail)
     deps = {t: set() for t in avail}
     for i, t1 in enumerate(avail):
         for t2 in avail[i + 1 :]:
